@@ -17,16 +17,18 @@ LayoutVerdict(L, o) ==
   ELSE IF o.ushape # <<Prod(DataShape(L))>> \/ o.upoints # DataPoints(L) \/ ~o.ucellsok THEN "grid-unstructured-cast@1"
   ELSE "ok"
 
-(* location memo machine: results always reflect the current data location *)
-RECURSIVE MemoFrom(_, _, _, _)
-MemoFrom(L, ops, res, k) ==
+(* location memo machine: results always reflect the current data location of the object that is *)
+(* read.  L: the object in hand; Lo: the other object (the original after "copy"), "swap" switches *)
+RECURSIVE MemoFrom(_, _, _, _, _)
+MemoFrom(L, Lo, ops, res, k) ==
   IF k > Len(ops) THEN "ok"
   ELSE LET op == ops[k] IN
-       IF op = "cells" \/ op = "points" THEN MemoFrom([L EXCEPT !.loc = op], ops, res, k + 1)
-       ELSE IF op = "copy" THEN MemoFrom(L, ops, res, k + 1)
+       IF op = "cells" \/ op = "points" THEN MemoFrom([L EXCEPT !.loc = op], Lo, ops, res, k + 1)
+       ELSE IF op = "copy" THEN MemoFrom(L, L, ops, res, k + 1)
+       ELSE IF op = "swap" THEN MemoFrom(Lo, L, ops, res, k + 1)
        ELSE LET want == CASE op = "shape" -> DataShape(L) [] op = "size" -> <<Prod(DataShape(L))>>
                           [] op = "npoints" -> <<Prod(DataShape(L))>>
-            IN IF res[k] # want THEN "grid-location-memo@" \o ToString(k) ELSE MemoFrom(L, ops, res, k + 1)
+            IN IF res[k] # want THEN "grid-location-memo@" \o ToString(k) ELSE MemoFrom(L, Lo, ops, res, k + 1)
 
 CanonVerdict(L, o) ==
   IF o.canon # CanonC(L) \/ o.cshape # NatShape(L) THEN "canonical-order@1"
@@ -48,7 +50,7 @@ Verdict(t) ==
   LET c == t.case o == t.obs IN
   IF Raised(o) THEN (IF c.what \in {"layout", "memo"} THEN "grid-raised@1" ELSE "grid-conversion-raised@1") ELSE
   CASE c.what = "layout" -> LayoutVerdict(c.L, o)
-    [] c.what = "memo"   -> MemoFrom(c.L, c.ops, o.res, 1)
+    [] c.what = "memo"   -> MemoFrom(c.L, c.L, c.ops, o.res, 1)
     [] c.what = "canon"  -> CanonVerdict(c.L, o)
     [] c.what = "compat" -> IF o.compat = Compatible(c.src, c.dst) THEN "ok" ELSE "compatible-iff-same-locations@1"
     [] c.what = "link"   -> LinkVerdict(c, o)
